@@ -40,7 +40,9 @@ def cases(tier, rng):
         elif fam == "fonll":
             cfg = cards.rand_config(rng, schemes=["FONLL-FFNS", "FONLL-FFN0", "FONLL-FFNS", "FFNS", "FFN0"], ptos=ptos, sv=True)
         else:
-            cfg = cards.rand_config(rng, process=cards.pick(rng, ["NC", "EM"]), ptos=ptos, sv=True)
+            # the flavour-class fl11 couplings only exist at N3LO: keep PTO 3 in the quick tier for this family
+            cfg = cards.rand_config(rng, process=cards.pick(rng, ["NC", "EM"]), ptos=ptos if (i // 4) % 3 else (3,), sv=True,
+                                    schemes=None if (i // 4) % 3 else ["ZM-VFNS", "FFN0", "FONLL-FFN0"])  # fmt: skip
         g = cards.rand_grid(rng)
         kind = cards.pick(rng, cfg["kinds"])
         if rng.random() < 0.4:
